@@ -127,6 +127,34 @@ def check_missing(rep, t, ns, r, ew, sp, has_ns, has_ew, tail, channel, lead='')
                                         'why': why, 'pp_desc': d.pp_desc, 'trs': [x.trs for x in d.tracts], 'w_flags': d.w_flags})
 
 
+def check_keyword_is_one_off(rep, t, ns, r, ew, sp, has_ns, has_ew, tail, via_master):
+    """a default direction passed as a keyword to one parse() fills the gaps of THAT parse only: the next plain parse() (and
+    preprocess()) goes back to the configured default / MasterConfig"""
+    dns, dew = ns.lower(), ew.lower()
+    opp = {'n': 's', 's': 'n', 'e': 'w', 'w': 'e'}
+    text = sp + tail
+    old = (MasterConfig.default_ns, MasterConfig.default_ew)
+    try:
+        if via_master:
+            MasterConfig.default_ns, MasterConfig.default_ew = dns, dew
+            d = pytrs.PLSSDesc(text, wait_to_parse=True)
+        else:
+            d = pytrs.PLSSDesc(text, config=f'{dns},{dew}', wait_to_parse=True)
+        d.parse(default_ns=opp[dns], default_ew=opp[dew])
+        first = [x.trs for x in d.tracts]
+        d.parse()
+        second = [x.trs for x in d.tracts]
+        pp = d.preprocess(commit=False)
+        ref = pytrs.PLSSDesc(text, config=None if via_master else f'{dns},{dew}')
+    finally:
+        MasterConfig.default_ns, MasterConfig.default_ew = old
+    canon = f"T{t}{ns}-R{r}{ew}"
+    if second != [x.trs for x in ref.tracts] or not pp.startswith(canon) or not d.pp_desc.startswith(canon):
+        rep.violation('failing-input', {'text': text, 'configured_defaults': [dns, dew], 'via': 'MasterConfig' if via_master else 'config string',
+                                        'why': 'after parse(default_ns=, default_ew=) a plain parse() / preprocess() no longer uses the configured defaults',
+                                        'keyword_parse': first, 'plain_parse_after': second, 'fresh_object': [x.trs for x in ref.tracts], 'pp_desc': d.pp_desc})
+
+
 OCR = {'1': ['I', 'l'], '0': ['O'], '5': ['S']}
 
 
@@ -151,6 +179,9 @@ def run(ctx):
         safely(rep, 'missing-mixed-sources', check_missing, t, ns, rg, ew, msp, hn, he, tail, mixed)
         rep.count()
         rep.dist('c08_mixed_sources', '/'.join(mixed))
+        if i % 2 == 0:
+            safely(rep, 'keyword-is-one-off', check_keyword_is_one_off, t, ns, rg, ew, msp, hn, he, tail, r.chance(1, 2))
+            rep.count()
         if i % 3 == 0:
             # the same Twp/Rge once written out in full and once with a direction missing: the filled-in one is still reported
             lead = f"T{t}{ns}-R{rg}{ew} Sec {r.range(1, 36)}: ALL, "
